@@ -1,14 +1,595 @@
-//! C11 harness (stub).
+//! C11: selection keeps exactly the sketches that satisfy the request.
+//!
+//! Request lines (one case = one collection of signatures, then selections on it):
+//!   sig <name hex|~> <filename hex|~>                      start a new signature
+//!   sk <ksize> <mol> <num> <scaled> <tracked> <v|t> <mins> <abunds>   add a sketch to it (echo)
+//!   ssel i SEL | stsel i SEL        Signature::select / SigStore::select on signature i
+//!   msel SEL | msel2 SEL            Manifest::select on the concatenated Record::from_sig rows (once / twice)
+//!   csel SEL                        Collection::from_sigs(..).select
+//!   cset SEL                        CollectionSet::try_from(collection.select)
+//!   lsel SEL                        LinearIndex::select (homogeneous cases)
+//!   cload SEL                       collection.select, then sig_from_record(rec).select per surviving row
+//!   agree i SEL                     positions retained at manifest level vs. at signature level
+//! SEL = <ksize|-> <mol|-> <abund|-> <num|-> <scaled|->
+use sourmash::collection::{Collection, CollectionSet};
+use sourmash::encodings::HashFunctions;
+use sourmash::index::linear::LinearIndex;
+use sourmash::manifest::{Manifest, Record};
+use sourmash::prelude::*;
+use sourmash::selection::Selection;
+use sourmash::signature::{Signature, SigsTrait};
+use sourmash::sketch::minhash::{max_hash_for_scaled, KmerMinHash, KmerMinHashBTree};
+use sourmash::sketch::Sketch;
+use sourmash::storage::SigStore;
 use verif_harness::*;
 
-fn gen(_a: &Args) {
-    let mut o = Out::new();
-    o.case("stub");
+const SEED0: u64 = 1000;
+const MOLS: [&str; 4] = ["dna", "protein", "dayhoff", "hp"];
+
+fn hf(m: &str) -> HashFunctions {
+    match m {
+        "dna" => HashFunctions::Murmur64Dna,
+        "protein" => HashFunctions::Murmur64Protein,
+        "dayhoff" => HashFunctions::Murmur64Dayhoff,
+        "hp" => HashFunctions::Murmur64Hp,
+        _ => panic!("mol"),
+    }
+}
+fn mol_name(h: &HashFunctions) -> &'static str {
+    match h {
+        HashFunctions::Murmur64Dna => "dna",
+        HashFunctions::Murmur64Protein => "protein",
+        HashFunctions::Murmur64Dayhoff => "dayhoff",
+        HashFunctions::Murmur64Hp => "hp",
+        _ => "custom",
+    }
 }
 
-fn step(_: &mut (), ws: &[&str]) -> String {
+// ------------------------------------------------------------------ generator
+
+#[derive(Clone)]
+struct GSk {
+    ksize: u64, // stored
+    mol: &'static str,
+    num: u64,
+    scaled: u64,
+    tracked: bool,
+    cont: char,
+    mins: Vec<u64>,
+    abunds: Vec<u64>,
+}
+impl GSk {
+    fn residues(&self) -> u64 {
+        if self.mol == "dna" {
+            self.ksize
+        } else {
+            self.ksize / 3
+        }
+    }
+    fn line(&self) -> String {
+        format!(
+            "sk {} {} {} {} {} {} {} {}",
+            self.ksize,
+            self.mol,
+            self.num,
+            self.scaled,
+            self.tracked as u8,
+            self.cont,
+            show_nats(self.mins.iter().cloned()),
+            show_nats(self.abunds.iter().cloned())
+        )
+    }
+}
+
+const KS: [u64; 4] = [7, 10, 21, 31];
+const SCALEDS: [u64; 9] = [1, 2, 3, 100, 1000, 1001, 2000, 1 << 31, (1 << 32) - 1];
+const NUMS: [u64; 4] = [1, 3, 5, 500];
+
+fn gen_sketch(r: &mut Rng, res: u64, mol: &'static str, tracked: bool) -> GSk {
+    let ksize = if mol == "dna" { res } else { res * 3 };
+    let kind = r.below(100);
+    let (num, scaled) = if kind < 50 {
+        (0, *r.pick(&SCALEDS))
+    } else if kind < 88 {
+        (*r.pick(&NUMS), 0)
+    } else if kind < 94 {
+        (*r.pick(&NUMS), *r.pick(&SCALEDS)) // both set
+    } else if kind < 97 {
+        (0, 0) // accepts nothing
+    } else {
+        (0, r.range(1u64 << 32, 1u64 << 40)) // scaled beyond any u32 request
+    };
+    let mh = max_hash_for_scaled(scaled);
+    let mut cand: Vec<u64> = vec![];
+    let want = r.below(7);
+    for _ in 0..want {
+        let v = match r.below(4) {
+            0 => r.range(0, 20),
+            1 => {
+                // around the ceiling of some scaled value a request may carry
+                let s = *r.pick(&SCALEDS) + r.below(2);
+                let c = max_hash_for_scaled(s);
+                match r.below(3) {
+                    0 => c,
+                    1 => c.saturating_sub(1),
+                    _ => c.saturating_add(1),
+                }
+            }
+            2 => r.bits(64),
+            _ => {
+                if mh > 0 {
+                    r.range(0, mh.min(u64::MAX - 1))
+                } else {
+                    r.bits(40)
+                }
+            }
+        };
+        cand.push(v);
+    }
+    cand.sort();
+    cand.dedup();
+    if scaled != 0 {
+        cand.retain(|&h| h <= mh);
+    }
+    if num != 0 {
+        cand.truncate(num as usize);
+    }
+    if num == 0 && scaled == 0 {
+        cand.clear();
+    }
+    let abunds = if tracked { cand.iter().map(|_| r.range(1, 5)).collect() } else { vec![] };
+    GSk {
+        ksize,
+        mol,
+        num,
+        scaled,
+        tracked,
+        cont: if r.chance(1, 2) { 'v' } else { 't' },
+        mins: cand,
+        abunds,
+    }
+}
+
+fn opt<T: std::fmt::Display>(o: &Option<T>) -> String {
+    match o {
+        Some(v) => v.to_string(),
+        None => "-".into(),
+    }
+}
+
+fn gen_sel(r: &mut Rng, mask: u32, sks: &[(u64, GSk)]) -> (String, Option<u64>) {
+    // most requests are built around one sketch of the case (so that conjunctions are satisfiable),
+    // with single criteria knocked off it
+    let pool: Vec<&(u64, GSk)> = if mask & 16 != 0 && !r.chance(1, 5) {
+        sks.iter().filter(|s| s.1.scaled != 0).collect()
+    } else if mask & 8 != 0 && mask & 16 == 0 && !r.chance(1, 5) {
+        sks.iter().filter(|s| s.1.num != 0).collect()
+    } else {
+        sks.iter().collect()
+    };
+    let based: Option<(u64, GSk)> = if pool.is_empty() || r.chance(1, 8) { None } else { Some((*r.pick(&pool)).clone()) };
+    let base: Option<GSk> = based.as_ref().map(|b| b.1.clone());
+    let mut from_case = |r: &mut Rng| -> Option<GSk> {
+        match &base {
+            Some(b) if !r.chance(1, 8) => Some(b.clone()),
+            _ => None,
+        }
+    };
+    let k = if mask & 1 != 0 {
+        Some(match from_case(r) {
+            Some(s) => {
+                if r.chance(1, 8) {
+                    s.ksize // the stored value: what a request for a protein sketch must NOT use
+                } else {
+                    s.residues()
+                }
+            }
+            None => *r.pick(&KS),
+        })
+    } else {
+        None
+    };
+    let m = if mask & 2 != 0 {
+        Some(match from_case(r) {
+            Some(s) => s.mol,
+            None => *r.pick(&MOLS),
+        })
+    } else {
+        None
+    };
+    let a = if mask & 4 != 0 {
+        Some(match from_case(r) {
+            Some(s) => s.tracked as u8,
+            None => r.below(2) as u8,
+        })
+    } else {
+        None
+    };
+    let n = if mask & 8 != 0 {
+        Some(match from_case(r) {
+            Some(s) => s.num,
+            None => *r.pick(&[0u64, 1, 3, 5, 500, 501]),
+        })
+    } else {
+        None
+    };
+    let s = if mask & 16 != 0 {
+        let base = match from_case(r) {
+            Some(s) if s.scaled != 0 => s.scaled,
+            _ => *r.pick(&SCALEDS),
+        };
+        let v = match r.below(8) {
+            0 => base.saturating_sub(1),
+            1 => base + 1,
+            2 => base.saturating_mul(2),
+            3 => 0,
+            4 => *r.pick(&SCALEDS),
+            _ => base,
+        };
+        Some(v.min(u32::MAX as u64))
+    } else {
+        None
+    };
+    (format!("{} {} {} {} {}", opt(&k), opt(&m), opt(&a), opt(&n), opt(&s)), based.map(|b| b.0))
+}
+
+fn gen(a: &Args) {
+    let mut r = Rng::new(a.seed);
+    let mut o = Out::new();
+    let ncases = if a.cases > 0 {
+        a.cases
+    } else if a.tier == "thorough" {
+        6000
+    } else {
+        320
+    };
+    for _ in 0..ncases {
+        let kind = match r.below(10) {
+            0..=5 => "free",
+            6..=8 => "lookup",
+            _ => "homog",
+        };
+        o.case(kind);
+        let nsig = r.range(1, 4);
+        let mut all: Vec<(u64, GSk)> = vec![];
+        let mut per_sig: Vec<usize> = vec![];
+        let (hres, hmol) = (*r.pick(&KS), *r.pick(&MOLS));
+        for i in 0..nsig {
+            let name = format!("s{}", i);
+            let fname = if r.chance(1, 2) { hex(format!("f{}.sig", i).as_bytes()) } else { "~".into() };
+            o.op(&format!("sig {} {}", hex(name.as_bytes()), fname));
+            let mut sks: Vec<GSk> = vec![];
+            match kind {
+                "free" => {
+                    let n = if r.chance(1, 10) { 0 } else { r.range(1, 4) };
+                    for _ in 0..n {
+                        let res = *r.pick(&KS);
+                        let mol = *r.pick(&MOLS);
+                        let tr = r.chance(1, 2);
+                        sks.push(gen_sketch(&mut r, res, mol, tr));
+                    }
+                }
+                "lookup" => {
+                    // pairwise different (residue ksize, molecule, abundance) inside a signature
+                    let n = r.range(1, 4);
+                    let mut seen: Vec<(u64, &str, bool)> = vec![];
+                    for _ in 0..n {
+                        let key = (*r.pick(&KS), *r.pick(&MOLS), r.chance(1, 2));
+                        if seen.contains(&key) {
+                            continue;
+                        }
+                        seen.push(key);
+                        sks.push(gen_sketch(&mut r, key.0, key.1, key.2));
+                    }
+                }
+                _ => {
+                    // one ksize / molecule for the whole collection: at most tracked + untracked
+                    let both = r.chance(1, 3);
+                    let first = r.chance(1, 2);
+                    sks.push(gen_sketch(&mut r, hres, hmol, first));
+                    if both {
+                        sks.push(gen_sketch(&mut r, hres, hmol, !first));
+                    }
+                }
+            }
+            for s in &sks {
+                o.op(&s.line());
+            }
+            per_sig.push(sks.len());
+            all.extend(sks.into_iter().map(|s| (i, s)));
+        }
+        // all 2^5 present/absent combinations, values mostly taken from the case
+        let mut masks: Vec<u32> = (0..32).collect();
+        // a few extra scaled-heavy requests: boundary is where the filter and the downsample meet
+        for _ in 0..6 {
+            masks.push(16 | (r.below(16) as u32));
+        }
+        for mask in masks {
+            let (sel, home) = gen_sel(&mut r, mask, &all);
+            let i = match home {
+                Some(h) if !r.chance(1, 4) => h,
+                _ => r.below(nsig),
+            };
+            match r.below(3) {
+                0 => o.op(&format!("ssel {} {}", i, sel)),
+                1 => o.op(&format!("stsel {} {}", i, sel)),
+                _ => {
+                    o.op(&format!("ssel {} {}", i, sel));
+                    o.op(&format!("agree {} {}", i, sel));
+                }
+            }
+            match r.below(4) {
+                0 => o.op(&format!("msel {}", sel)),
+                1 => o.op(&format!("msel2 {}", sel)),
+                2 => o.op(&format!("csel {}", sel)),
+                _ => o.op(&format!("cset {}", sel)),
+            }
+            if kind == "lookup" || kind == "homog" {
+                o.op(&format!("cload {}", sel));
+            }
+            if kind == "homog" && !all.is_empty() {
+                o.op(&format!("lsel {}", sel));
+            }
+        }
+    }
+}
+
+// ------------------------------------------------------------------ exec
+
+#[derive(Default)]
+struct St {
+    sigs: Vec<Signature>,
+}
+
+fn build_sketch(ws: &[&str], j: usize) -> Sketch {
+    let n = |i: usize| -> u64 { ws[i].parse().unwrap() };
+    let (ksize, mol, num, scaled, tracked, cont) = (n(1), ws[2], n(3), n(4), ws[5] == "1", ws[6]);
+    let mins = parse_nats(ws[7]);
+    let abunds = parse_nats(ws[8]);
+    let seed = SEED0 + j as u64;
+    if cont == "v" {
+        let mut mh = KmerMinHash::new(scaled, ksize as u32, hf(mol), seed, tracked, num as u32);
+        for (i, h) in mins.iter().enumerate() {
+            mh.add_hash_with_abundance(*h, if tracked { abunds[i] } else { 1 });
+        }
+        Sketch::MinHash(mh)
+    } else {
+        let mut mh = KmerMinHashBTree::new(scaled, ksize as u32, hf(mol), seed, tracked, num as u32);
+        for (i, h) in mins.iter().enumerate() {
+            mh.add_hash_with_abundance(*h, if tracked { abunds[i] } else { 1 });
+        }
+        Sketch::LargeMinHash(mh)
+    }
+}
+
+fn descr(s: &Sketch) -> String {
+    let (seed, ksize, h, num, scaled, tracked, c, mins, abunds) = match s {
+        Sketch::MinHash(mh) => (
+            mh.seed(),
+            mh.ksize(),
+            mh.hash_function(),
+            mh.num(),
+            mh.scaled(),
+            mh.track_abundance(),
+            'v',
+            mh.mins(),
+            mh.abunds(),
+        ),
+        Sketch::LargeMinHash(mh) => (
+            mh.seed(),
+            mh.ksize(),
+            mh.hash_function(),
+            mh.num(),
+            mh.scaled(),
+            mh.track_abundance(),
+            't',
+            mh.mins(),
+            mh.abunds(),
+        ),
+        _ => panic!("sketch type"),
+    };
+    format!(
+        "{}/{}/{}/{}/{}/{}/{}/{}/{}/{}",
+        seed - SEED0,
+        ksize,
+        mol_name(&h),
+        num,
+        scaled,
+        tracked as u8,
+        c,
+        mins.len(),
+        show_nats(mins),
+        show_nats(abunds.unwrap_or_default())
+    )
+}
+
+fn descr_sig(sig: &Signature) -> String {
+    let v: Vec<String> = sig.iter().map(descr).collect();
+    if v.is_empty() {
+        "-".into()
+    } else {
+        v.join(";")
+    }
+}
+
+fn parse_sel(ws: &[&str]) -> Selection {
+    let mut sel = Selection::default();
+    if ws[0] != "-" {
+        sel.set_ksize(ws[0].parse().unwrap());
+    }
+    if ws[1] != "-" {
+        sel.set_moltype(hf(ws[1]));
+    }
+    if ws[2] != "-" {
+        sel.set_abund(ws[2] == "1");
+    }
+    if ws[3] != "-" {
+        sel.set_num(ws[3].parse().unwrap());
+    }
+    if ws[4] != "-" {
+        sel.set_scaled(ws[4].parse().unwrap());
+    }
+    sel
+}
+
+fn same_row(a: &Record, b: &Record) -> bool {
+    a == b && a.internal_location() == b.internal_location()
+}
+
+/// rows of `kept` printed with their position in `orig` (leftmost order-preserving embedding)
+fn rows(orig: &[Record], kept: &[Record]) -> String {
+    let mut p = 0usize;
+    let mut out = vec![];
+    for r in kept {
+        while p < orig.len() && !same_row(&orig[p], r) {
+            p += 1;
+        }
+        let g = if p < orig.len() { p.to_string() } else { "?".into() };
+        p += 1;
+        out.push(format!(
+            "{}:{}:{}:{}:{}:{}:{}:{}",
+            g,
+            r.internal_location(),
+            r.ksize(),
+            mol_name(&r.moltype()),
+            r.num(),
+            r.scaled(),
+            r.with_abundance() as u8,
+            r.n_hashes()
+        ));
+    }
+    if out.is_empty() {
+        "-".into()
+    } else {
+        out.join(";")
+    }
+}
+
+fn all_rows(st: &St) -> Vec<Record> {
+    st.sigs
+        .iter()
+        .enumerate()
+        .flat_map(|(i, s)| Record::from_sig(s, &i.to_string()))
+        .collect()
+}
+
+fn step(st: &mut St, ws: &[&str]) -> String {
     match ws[0] {
         "case" => "ok".into(),
+        "sig" => {
+            let mut sig = Signature::default();
+            if ws[1] != "~" {
+                sig.set_name(std::str::from_utf8(&unhex(ws[1])).unwrap());
+            }
+            if ws[2] != "~" {
+                sig.set_filename(std::str::from_utf8(&unhex(ws[2])).unwrap());
+            }
+            st.sigs.push(sig);
+            "ok".into()
+        }
+        "sk" => {
+            let sig = st.sigs.last_mut().unwrap();
+            let sk = build_sketch(ws, sig.size());
+            let d = descr(&sk);
+            sig.push(sk);
+            d
+        }
+        "ssel" => {
+            let sig = st.sigs[ws[1].parse::<usize>().unwrap()].clone();
+            match sig.select(&parse_sel(&ws[2..])) {
+                Ok(s) => descr_sig(&s),
+                Err(e) => format!("err {:?}", e),
+            }
+        }
+        "stsel" => {
+            let sig: SigStore = st.sigs[ws[1].parse::<usize>().unwrap()].clone().into();
+            match sig.select(&parse_sel(&ws[2..])) {
+                Ok(s) => descr_sig(&Signature::from(s)),
+                Err(e) => format!("err {:?}", e),
+            }
+        }
+        "msel" | "msel2" => {
+            let orig = all_rows(st);
+            let sel = parse_sel(&ws[1..]);
+            let mut m = Manifest::from(orig.clone()).select(&sel).unwrap();
+            if ws[0] == "msel2" {
+                m = m.select(&sel).unwrap();
+            }
+            let kept: Vec<Record> = m.iter().cloned().collect();
+            rows(&orig, &kept)
+        }
+        "csel" => {
+            let c = Collection::from_sigs(st.sigs.clone()).unwrap();
+            let orig: Vec<Record> = c.manifest().iter().cloned().collect();
+            let c = c.select(&parse_sel(&ws[1..])).unwrap();
+            let kept: Vec<Record> = c.manifest().iter().cloned().collect();
+            rows(&orig, &kept)
+        }
+        "cset" => {
+            let c = Collection::from_sigs(st.sigs.clone()).unwrap();
+            let c = c.select(&parse_sel(&ws[1..])).unwrap();
+            match CollectionSet::try_from(c) {
+                Ok(cs) => format!("ok {}", cs.len()),
+                Err(e) => format!("err {:?}", e),
+            }
+        }
+        "lsel" => {
+            let c = Collection::from_sigs(st.sigs.clone()).unwrap();
+            let orig: Vec<Record> = c.manifest().iter().cloned().collect();
+            let idx = LinearIndex::from_collection(CollectionSet::try_from(c).unwrap());
+            match idx.select(&parse_sel(&ws[1..])) {
+                Ok(idx) => {
+                    let kept: Vec<Record> = idx.collection().manifest().iter().cloned().collect();
+                    rows(&orig, &kept)
+                }
+                Err(e) => format!("err {:?}", e),
+            }
+        }
+        "cload" => {
+            let sel = parse_sel(&ws[1..]);
+            let c = Collection::from_sigs(st.sigs.clone()).unwrap().select(&sel).unwrap();
+            let mut out = vec![];
+            for (_, rec) in c.iter() {
+                let loaded = c.sig_from_record(rec).and_then(|s| s.select(&sel));
+                out.push(match loaded {
+                    Ok(s) => format!("{}={}", rec.internal_location(), descr_sig(&Signature::from(s))),
+                    Err(e) => format!("err {:?}", e),
+                });
+            }
+            if out.is_empty() {
+                "-".into()
+            } else {
+                out.join("|")
+            }
+        }
+        "agree" => {
+            let i = ws[1].parse::<usize>().unwrap();
+            let sel = parse_sel(&ws[2..]);
+            let sig = st.sigs[i].clone();
+            let recs = Record::from_sig(&sig, "x");
+            let kept_rows: Vec<Record> =
+                Manifest::from(recs.clone()).select(&sel).unwrap().iter().cloned().collect();
+            // positions: rows of one signature are told apart by their position, so embed leftmost
+            let mut p = 0usize;
+            let mut mpos = vec![];
+            for r in &kept_rows {
+                while p < recs.len() && !same_row(&recs[p], r) {
+                    p += 1;
+                }
+                mpos.push(p as u64);
+                p += 1;
+            }
+            let kept = sig.clone().select(&sel).unwrap();
+            let spos: Vec<u64> = kept
+                .iter()
+                .map(|s| match s {
+                    Sketch::MinHash(mh) => mh.seed() - SEED0,
+                    Sketch::LargeMinHash(mh) => mh.seed() - SEED0,
+                    _ => panic!(),
+                })
+                .collect();
+            format!("m={} s={}", show_nats(mpos), show_nats(spos))
+        }
         _ => "bad-op".into(),
     }
 }
@@ -17,7 +598,7 @@ fn main() {
     let a = args();
     match a.mode.as_str() {
         "gen" => gen(&a),
-        "exec" => exec_loop(|| (), step),
+        "exec" => exec_loop(St::default, step),
         _ => panic!("mode"),
     }
 }
